@@ -1222,6 +1222,13 @@ func (p *Parser) parseBinding(decl DeclType) (binding IBinding) {
 	}
 	defer func() { p.exprLevel-- }()
 
+	if p.tt == OpenBracketToken || p.tt == OpenBraceToken {
+		// inside the brackets of a binding pattern the in operator is allowed again, also in a for statement initializer
+		prevIn := p.in
+		p.in = true
+		defer func() { p.in = prevIn }()
+	}
+
 	// BindingIdentifier, BindingPattern
 	if p.isIdentifierReference(p.tt) {
 		var ok bool
@@ -2048,7 +2055,10 @@ func (p *Parser) parseExpressionSuffix(left IExpr, prec, precLeft OpPrec) IExpr 
 				left = &CallExpr{left, p.parseArguments(), OpOpt, true}
 			} else if p.tt == OpenBracketToken {
 				p.next()
+				prevIn := p.in
+				p.in = true
 				left = &IndexExpr{left, p.parseExpression(OpExpr), OpOpt, true}
+				p.in = prevIn
 				if !p.consume("optional chaining expression", CloseBracketToken) {
 					return nil
 				}
